@@ -29,11 +29,10 @@ def stepLineDddmp (ms : Mgrs) (line : String) : Mgrs × String :=
       let names := splitList ((names.drop 6).toString) ','
       let ns := f.nodes.map fun n => s!"{n.u}:{dddmpTruthTable f names n.u}"
       let rs := (f.rootids.getD []).map fun r => s!"r{r}:{dddmpTruthTable f names r}"
-      -- … and of `evalFormat` (the DDDMP reading rule on the header lines) when the file has names
-      let fs := if f.named then
+      -- … and of `evalFormat` (the DDDMP reading rule on the header lines; files without names: the loader's convention)
+      let fs :=
           (f.nodes.map fun n => s!"F{n.u}:{dddmpFormatTable f names n.u}") ++
           ((f.rootids.getD []).map fun r => s!"Fr{r}:{dddmpFormatTable f names r}")
-        else []
       (ms, "ok " ++ joinWith ";" (ns ++ rs ++ fs))
     | none => (ms, "err BAD-LINE")
   | _ => stepLine ms line
